@@ -1,10 +1,14 @@
 package wire
 
 import (
+	"bytes"
+	"context"
 	"crypto/tls"
 	"fmt"
+	"io"
 	"net/http"
 	"runtime"
+	"time"
 
 	"github.com/AdguardTeam/AdGuardDNS/verif/kernel"
 	"github.com/AdguardTeam/AdGuardDNS/verif/simnet"
@@ -257,6 +261,30 @@ func runC08(s *kernel.Sim, _ string) {
 			checkC08(tk, "doh", true, true, 65535, q, body)
 			if tk.Failed() {
 				return
+			}
+
+			// The same over HTTP/3.
+			{
+				h3, done := h3Transport(n, ip, "dns.sim.test")
+				hreq, _ := http.NewRequest(http.MethodPost, "https://dns.sim.test/dns-query", bytes.NewReader(q.raw))
+				hreq.Header.Set("Content-Type", "application/dns-message")
+				hctx, hcancel := context.WithTimeout(context.Background(), 100*time.Second)
+				hr, herr := h3.RoundTrip(hreq.WithContext(hctx))
+				if herr != nil || hr.StatusCode != http.StatusOK {
+					hcancel()
+					done()
+					tk.Failf("C08/no-answer", "doh-h3: no answer", "%s: %v", q.msg.Question[0].Name, herr)
+
+					return
+				}
+				b3, _ := io.ReadAll(hr.Body)
+				_ = hr.Body.Close()
+				hcancel()
+				done()
+				checkC08(tk, "doh-h3", true, true, 65535, q, b3)
+				if tk.Failed() {
+					return
+				}
 			}
 
 			// DNSCrypt: the limit of the statement applies to the datagram on
